@@ -58,7 +58,7 @@ theorem stateSolved_items (hs : SizesOk keys sg ph) :
 theorem state_accept (ok : w.Ok (multisigScriptN m keys) flags)
     (hm1 : 1 ≤ m) (hmn : m ≤ keys.length) (hn : keys.length ≤ 20) (hs : SizesOk keys sg ph)
     (hfull : card keys.reverse.length sgn = m)
-    (hse : ∀ i, sgn i = true → checkSignatureEncoding (sg i) flags = none)
+    (hse : ∀ i, i < keys.reverse.length → sgn i = true → checkSignatureEncoding (sg i) flags = none)
     (hke : ∀ k ∈ keys, checkPubKeyEncoding k flags w.sv = none)
     (hown : ∀ i k, keys.reverse[i]? = some k → sgn i = true →
       chk (sg i) k (scriptCodeFor ⟨multisigScriptN m keys, flags, w.sv, tx⟩ ⟨[], [], [], 0, 0⟩
@@ -87,7 +87,7 @@ theorem state_accept (ok : w.Ok (multisigScriptN m keys) flags)
     · intro s hs'
       rw [hsigs] at hs'
       obtain ⟨i, hi, rfl⟩ := List.mem_map.mp hs'
-      exact hse i (mem_signedList.mp hi).2
+      exact hse i (mem_signedList.mp hi).1 (mem_signedList.mp hi).2
     · intro k hk; exact hke k (List.mem_reverse.mp hk)
 
 /-- **fewer than `m` ⇒ rejected**: a placeholder is there, and it verifies for no listed key -/
